@@ -43,6 +43,21 @@ CHECKS.update({
         technique="Kani/CBMC bounded model checking of macro expansions, execution-count monitors vs closed-form failing step"),
 })
 
+CHECKS.update({
+    "C12": dict(
+        level="model_checking", ref="3 (C12)",
+        text="Bounded model checking: for depth profiles <= 3x3 and subsets of named branches, every later position is a block capture that snapshots one of the `let` names; "
+             "one CBMC query per packed group shows for ALL payloads (and thread schedules) that the result equals the unnamed oracle and that each snapshot equals the named branch's "
+             "value after its most recent step (also after it finished), still wrapped in try macros.",
+        technique="Kani/CBMC bounded model checking of macro expansions, snapshot monitors in block captures"),
+    "C13": dict(
+        level="model_checking", ref="3 (C13)",
+        text="Bounded model checking: legal (macro kind x handler kind) combinations x branch shapes x handler written first/second/last; symbolic outcome of every position and of the "
+             "and_then handler itself; asserts call count (map/and_then iff all succeeded, then always once), argument order (handler reverses its arguments), result shape, and for async "
+             "macros that the future returned by then/and_then (awaiting a gate with a symbolic pending count) is awaited. The compile-time rejection clause is not decided.",
+        technique="Kani/CBMC bounded model checking of macro expansions, handler call counters and closed-form results"),
+})
+
 NOT_APPLICABLE = {
     "C15": "Quantifies over token streams fed to the expander and has no run-time dimension; deciding it needs symbolic execution of JoinInputDefault::parse + generate_join, "
            "and Kani 0.68 ICEs on proc_macro2::Ident::new / does not finish pushing one token into a TokenStream in 900 s (DESIGN.md 1.1, 4). A hand model of the parser would not be the repository's code.",
